@@ -6,6 +6,18 @@
 #include "static_reproc.h"
 #include "common_reproc.h"
 
+/* Executable contract of now() (clock.posix.c is not linked into this harness;
+   the real now() is enforced against the same statement in harness `now`):
+   virtual time passes, monotonically, and the reading is the clock. */
+int64_t now(void)
+{
+  long d = nondet_long();
+  __CPROVER_assume(d >= 0 && d <= 0x7fffffffL);
+  g.now += d;
+  if (g.e.os_calls < 1000000) g.e.os_calls++;
+  return g.now;
+}
+
 static reproc_t *poll_process(void)
 {
   reproc_t *p = (malloc)(sizeof(reproc_t));
@@ -25,8 +37,8 @@ static reproc_t *poll_process(void)
 }
 
 /* ---- specification helpers: plain loops over the (bounded) sources ------------ */
-static reproc_event_source src[VERIF_NSRC];
-static reproc_event_source src0[VERIF_NSRC]; /* as passed in */
+static reproc_event_source src[3];
+static reproc_event_source src0[3]; /* as passed in */
 static size_t nsrc;
 
 static bool has_dl(size_t k) { return k < nsrc && src0[k].process != NULL && src0[k].process->deadline != -1; }
@@ -108,6 +120,9 @@ void harness(void)
   nsrc = num_sources;
   for (int k = 0; k < VERIF_NSRC; k++) src0[k] = src[k];
   int64_t now0 = g.now;
+  /* frame snapshots ('light' enforcement: the frame is asserted explicitly) */
+  reproc_t a0 = *pa, b0 = *pb, c0 = *pc;
+  struct ghost g0 = g;
 
 #if defined(POLL_find_earliest_deadline)
 #include "gen/pre_find_earliest_deadline.inc"
@@ -129,6 +144,7 @@ void harness(void)
   if (verif_rv == VERIF_NSRC - 1) V_CANARY("poll.last_source_wins_reachable");
 #elif defined(POLL_reproc_poll)
   int timeout = nondet_int();
+  __CPROVER_assume(timeout >= -1); /* milliseconds, or REPROC_INFINITE (reproc.h :374-375) */
 #include "gen/pre_reproc_poll.inc"
   int verif_rv = reproc_poll(sources, num_sources, timeout);
 #include "gen/post_reproc_poll.inc"
@@ -192,6 +208,13 @@ void harness(void)
       }
     }
   }
+#define SAME_HANDLE(p, q) ((p)->handle == (q).handle && (p)->pipe.in == (q).pipe.in && (p)->pipe.out == (q).pipe.out && (p)->pipe.err == (q).pipe.err && (p)->pipe.exit == (q).pipe.exit && (p)->status == (q).status && (p)->deadline == (q).deadline && (p)->nonblocking == (q).nonblocking && (p)->child.out == (q).child.out && (p)->child.err == (q).child.err)
+  V_ASSERT("C09+C14/poll.frame_handles_untouched", SAME_HANDLE(pa, a0) && SAME_HANDLE(pb, b0) && SAME_HANDLE(pc, c0));
+  V_ASSERT("C05+C06/poll.frame_descriptors_and_child_untouched",
+           g.fds.open == g0.fds.open && g.fds.lib == g0.fds.lib && g.fds.cloexec == g0.fds.cloexec &&
+               g.fds.nonblock == g0.fds.nonblock && g.nsig == g0.nsig && g.reaps == g0.reaps &&
+               g.kill_calls == g0.kill_calls && g.wait_calls == g0.wait_calls && g.child_pid == g0.child_pid &&
+               g.rl.rd_calls == g0.rl.rd_calls && g.wl.wr_calls == g0.wl.wr_calls && g.sigmask == g0.sigmask);
   if (verif_rv == 0) V_CANARY("poll.timeout_reachable");
   if (verif_rv > 0 && g.pl.poll_calls == 0) V_CANARY("poll.expired_deadline_reachable");
   if (verif_rv > 0 && g.pl.poll_calls == 1 && g.pl.poll_ret == 0) V_CANARY("poll.deadline_during_poll_reachable");
